@@ -26,5 +26,9 @@ func (n *RawNode) Unicast(ctx context.Context, d CallData, opts ...CallOption) {
 	n.channel.enqueue(req, replyChan, false)
 	// channel sends an empty reply on replyChan when the message has been sent
 	// wait until the message has been sent
-	<-replyChan
+	select {
+	case <-replyChan:
+	case <-ctx.Done():
+		// stop waiting for the message to be sent
+	}
 }
